@@ -114,6 +114,10 @@ def gen_value(t, rng, tier):
 def generate(c, n, seed, tier):
     rng = random.Random((seed * 1000003) ^ hash(c.key) & 0xFFFFFFF)
     rng = random.Random("%s|%s" % (seed, c.key))
+    if c.gen is not None:
+        for i in range(n):
+            yield {"__gen__": [seed, i, tier]}
+        return
     dom = c.domain
     if callable(dom):
         for i in range(n):
@@ -136,6 +140,8 @@ def generate(c, n, seed, tier):
 
 
 def describe(c, tier):
+    if c.gen is not None:
+        return (c.gen.__doc__ or c.gen.__name__).strip()
     if callable(c.domain):
         return (c.domain.__doc__ or c.domain.__name__).strip()
     return "type-driven random inputs (tables <= %d rows, boundary reals, NaN, both naming styles), tier %s" % (
@@ -144,6 +150,8 @@ def describe(c, tier):
 
 def nontrivial(c, inputs):
     """A case is non-trivial when some table/vector argument is non-empty (or there is none)."""
+    if "__gen__" in inputs:
+        return True
     has = False
     for v in inputs.values():
         if isinstance(v, dict) and "data" in v:
